@@ -170,6 +170,8 @@ static void report(const std::string &fn, const std::string &form, int rc, doubl
                "{\"fn\":\"" + fn + "\",\"args\":\"" + args + "\"}");
     }
 }
+// out-parameters are pre-filled with stale, finite, non-zero data: a field the function forgets to write then shows as a wrong value
+static const a_complex STALE = {(a_real)777.25, (a_real)-555.5};
 static std::string zs(a_complex z) { return num((double)z.real) + (z.imag < 0 || (z.imag == 0 && std::signbit((double)z.imag)) ? "" : "+") + num((double)z.imag) + "i"; }
 
 static void unary_all()
@@ -185,7 +187,7 @@ static void unary_all()
             for (a_real im : axis)
             {
                 if (!wide && (extreme(re) || extreme(im))) { continue; }
-                a_complex z = {re, im}, w, w2 = z;
+                a_complex z = {re, im}, w = STALE, w2 = z;
                 F.f(&w, z);
                 F.f_(&w2);
                 C want;
@@ -228,7 +230,7 @@ static void misc_all()
             // polar(rho, theta) with rho = |re|, theta = im
             if (std::fabs((double)im) <= 64 && !extreme(re))
             {
-                a_complex p;
+                a_complex p = STALE;
                 a_complex_polar(&p, re, im);
                 rc = judge([](C t) { return crealq(t) * mk(cosq(cimagq(t)), sinq(cimagq(t))); }, zq, tocq(p), ratio, want);
                 report("polar", "value", rc, ratio, "rho=" + num((double)re) + ",theta=" + num((double)im), tocq(p), want);
@@ -242,21 +244,21 @@ static void misc_all()
         double ratio;
         int rc;
         C xq = mk((Q)x, 0);
-        a_complex_sqrt_real(&w, x);
+        w = STALE; a_complex_sqrt_real(&w, x);
         rc = judge(csqrtq, mk((Q)x, 0), tocq(w), ratio, want);
         if (x >= 0) { report("sqrt_real", "value", rc, ratio, num((double)x), tocq(w), want); }
         else if (!(w.real == 0 && std::fabs((double)w.imag - std::sqrt(-(double)x)) <= 4 * EPS * std::sqrt(-(double)x))) { R.viol("complex|sqrt_real|negative", "a_complex_sqrt_real of a negative number is not i*sqrt(|x|)", "{\"x\":" + num((double)x) + "}"); }
         if (std::fabs((double)x) <= 1)
         {
-            a_complex_asin_real(&w, x); rc = judge(casinq, xq, tocq(w), ratio, want); report("asin_real", "value", rc, ratio, num((double)x), tocq(w), want);
-            a_complex_acos_real(&w, x); rc = judge(cacosq, xq, tocq(w), ratio, want); report("acos_real", "value", rc, ratio, num((double)x), tocq(w), want);
+            w = STALE; a_complex_asin_real(&w, x); rc = judge(casinq, xq, tocq(w), ratio, want); report("asin_real", "value", rc, ratio, num((double)x), tocq(w), want);
+            w = STALE; a_complex_acos_real(&w, x); rc = judge(cacosq, xq, tocq(w), ratio, want); report("acos_real", "value", rc, ratio, num((double)x), tocq(w), want);
         }
-        if (std::fabs((double)x) < 1) { a_complex_atanh_real(&w, x); rc = judge(catanhq, xq, tocq(w), ratio, want); report("atanh_real", "value", rc, ratio, num((double)x), tocq(w), want); }
-        if (x >= 1) { a_complex_acosh_real(&w, x); rc = judge(cacoshq, xq, tocq(w), ratio, want); report("acosh_real", "value", rc, ratio, num((double)x), tocq(w), want); }
+        if (std::fabs((double)x) < 1) { w = STALE; a_complex_atanh_real(&w, x); rc = judge(catanhq, xq, tocq(w), ratio, want); report("atanh_real", "value", rc, ratio, num((double)x), tocq(w), want); }
+        if (x >= 1) { w = STALE; a_complex_acosh_real(&w, x); rc = judge(cacoshq, xq, tocq(w), ratio, want); report("acosh_real", "value", rc, ratio, num((double)x), tocq(w), want); }
         if (std::fabs((double)x) >= 1)
         {
-            a_complex_asec_real(&w, x); rc = judge(r_asec, xq, tocq(w), ratio, want); report("asec_real", "value", rc, ratio, num((double)x), tocq(w), want);
-            a_complex_acsc_real(&w, x); rc = judge(r_acsc, xq, tocq(w), ratio, want); report("acsc_real", "value", rc, ratio, num((double)x), tocq(w), want);
+            w = STALE; a_complex_asec_real(&w, x); rc = judge(r_asec, xq, tocq(w), ratio, want); report("asec_real", "value", rc, ratio, num((double)x), tocq(w), want);
+            w = STALE; a_complex_acsc_real(&w, x); rc = judge(r_acsc, xq, tocq(w), ratio, want); report("acsc_real", "value", rc, ratio, num((double)x), tocq(w), want);
         }
     }
 }
@@ -292,6 +294,7 @@ static void binary_all()
                 for (const SF &q : sf)
                 {
                     if (q.op == 3 && s == 0) { continue; }
+                    w = STALE;
                     q.f(&w, x, s);
                     w2 = x;
                     q.f_(&w2, s);
@@ -304,7 +307,7 @@ static void binary_all()
                 // multiply then divide by the same scalar is the identity
                 if (s != 0 && std::fabs((double)s) < 1e10 && std::fabs((double)s) > 1e-10 && !extreme(xr) && !extreme(xi))
                 {
-                    a_complex t;
+                    a_complex t = STALE;
                     a_complex_mul_real(&t, x, s); a_complex_div_real_(&t, s);
                     rc = judge([](C u) { return u; }, xq, tocq(t), ratio, want);
                     report("mul_real/div_real", "identity", rc, ratio / 2, zs(x) + ", " + num((double)s), tocq(t), want);
@@ -312,6 +315,7 @@ static void binary_all()
                     rc = judge([](C u) { return u; }, xq, tocq(t), ratio, want);
                     report("mul_imag/div_imag", "identity", rc, ratio / 2, zs(x) + ", " + num((double)s), tocq(t), want);
                 }
+                w = STALE;
                 a_complex_pow_real(&w, x, s);
                 if ((xr != 0 || xi != 0) && !extreme(xr) && !extreme(xi) && !extreme(s))
                 {
@@ -330,6 +334,7 @@ static void binary_all()
                     for (const BF &q : bf)
                     {
                         if (q.op == 3 && yr == 0 && yi == 0) { continue; }
+                        w = STALE;
                         q.f(&w, x, y);
                         w2 = x;
                         q.f_(&w2, y);
@@ -347,13 +352,13 @@ static void binary_all()
                     }
                     if ((xr != 0 || xi != 0) && std::fabs((double)yr) <= 64 && std::fabs((double)yi) <= 64 && !extreme(xr) && !extreme(xi) && !extreme(yr) && !extreme(yi))
                     {
-                        a_complex_pow(&w, x, y);
+                        w = STALE; a_complex_pow(&w, x, y);
                         rc = judge([yq](C t) { return cpowq(t, yq); }, xq, tocq(w), ratio, want);
                         if (rc == 1) { C w2q = cpowq(xq, yq * (1 + 4 * (Q)EPS)); Q extra = cabsq(w2q - want); if (cabsq(tocq(w) - want) <= KTOL * ((Q)EPS * cabsq(want) + extra)) { rc = 0; } }
                         report("pow", "value", rc, ratio, zs(x) + " ^ " + zs(y), tocq(w), want);
                         if (!(yr == 1 && yi == 0) && !(yr == 0 && yi == 0))
                         {
-                            a_complex_logb(&w, x, y);
+                            w = STALE; a_complex_logb(&w, x, y);
                             rc = judge([yq](C t) { return clogq(t) / clogq(yq); }, xq, tocq(w), ratio, want);
                             if (rc == 1) { C w2q = clogq(xq) / clogq(yq * (1 + 4 * (Q)EPS)); Q extra = cabsq(w2q - want); if (cabsq(tocq(w) - want) <= KTOL * ((Q)EPS * cabsq(want) + extra)) { rc = 0; } }
                             report("logb", "value", rc, ratio, zs(x) + " base " + zs(y), tocq(w), want);
